@@ -276,6 +276,8 @@ def run(cx):
     # delivered base: its Reliable parent is then taken as satisfied
     from props.C01 import inst_channel_markers
     inst_channel_markers(cx, "C02.s")
+    from props.C06 import inst_sibling_accounting
+    inst_sibling_accounting(cx, "C02.t")
 
 
 SELFTEST = [
